@@ -4,7 +4,7 @@
 //!        c18 lex    <mode> <seed> <n> <cases_out> <impl_out>
 //!              mode = random | exhaustive<k> | slices | file:<path>
 //!        c18 accept <mode> <seed> <n> <cases_out> <impl_out>
-//!              mode = libs | gen | file:<path>
+//!              mode = libs | gen | opt | file:<path>
 //!
 //! LEX.  A case is a byte string (Latin-1 text), written as decimal numbers.  The line is flushed
 //! before the implementation runs.  impl_out: per case `lc|ll|sc|sl|flags|verdict`
@@ -37,6 +37,8 @@ use vhdl_syntax::syntax::AstNode;
 
 #[path = "c18/progen.rs"]
 mod progen;
+#[path = "c18/optfam.rs"]
+mod optfam;
 
 fn hex(bs: &[u8]) -> String {
     let mut s = String::with_capacity(bs.len() * 2);
@@ -664,9 +666,22 @@ fn main_accept(args: &[String]) {
             let text = if style == 'g' { progen::print_generous(&mut rng, &toks) } else { progen::print_minimal(&toks) };
             emit(format!("G {} {}", style, hex(text.as_bytes())), text.into_bytes());
         }
+    } else if mode == "opt" {
+        // the 'optional parts' family: every LRM-valid combination, with single blanks and with minimal spacing
+        for text in optfam::all() {
+            let toks: Vec<String> = text.split_whitespace().map(|t| t.to_string()).collect();
+            let min = progen::print_minimal(&toks);
+            emit(format!("O {}", text), text.clone().into_bytes());
+            let min = min.trim_end().to_string();
+            emit(format!("O {}", min), min.into_bytes());
+        }
     } else if let Some(path) = mode.strip_prefix("file:") {
         for line in String::from_utf8_lossy(&std::fs::read(path).unwrap()).lines() {
             let line = line.trim();
+            if let Some(rest) = line.strip_prefix("O ") {
+                emit(line.to_string(), rest.as_bytes().to_vec());
+                continue;
+            }
             if let Some(rest) = line.strip_prefix("G ") {
                 let mut it = rest.splitn(2, ' ');
                 let _style = it.next().unwrap_or("g");
